@@ -34,6 +34,11 @@ CHECKS['C17'] = ('every pair of sorted m/z lists (with repetitions) of length 0.
                  'against a quadratic brute-force matcher; fragment-match layer over every ordered selection of <=3 of 6 '
                  'real fragments x <=3 of 6 peaks (order independence, intensity share, coverage)',
                  'DESIGN.md section 4 / C17')
+CHECKS['C13'] = ('every residue string of length 1..3 (quick) / 1..4 (thorough) over {P,E,K} x pre-existing modifications x 16 '
+                 'internal rule sets x 16-20 terminal rule pairs x max_mods 0..4 x 3 modes x 2 return types; static '
+                 'builder against an own rule application, variable builder (mode skip) against the exhaustive subset '
+                 'enumeration (every form exactly once), weak clauses for the other modes and overlapping rule sets',
+                 'DESIGN.md section 4 / C13')
 NOT_APPLICABLE = {}
 
 
